@@ -4,6 +4,7 @@ pub enum CEffect {
     DisableBuffering,
     Data { id: u32, bytes: Seq<u8> },          // session.write_data_frame(id, bytes) accepted
     CloseWithError { id: u32 },                // stream.close_with_error(..)
+    Released,                                  // the session went back to the pool (Client::release_session, under contract in group `reuse`)
 }
 pub struct RecvError;
 pub struct Elapsed;
@@ -58,6 +59,10 @@ impl Client {
     // session acquisition (pool reuse or a new TLS session): opaque here
     #[verifier::external_body]
     pub fn create_stream(&self) -> (r: Result<Arc<Session>>) { unimplemented!() }
+    #[verifier::external_body]
+    pub fn release_session(&self, session: Arc<Session>, fx: &mut Ghost<Seq<CEffect>>)
+        ensures final(fx)@ == old(fx)@.push(CEffect::Released)
+    { unimplemented!() }
 }
 pub use std::sync::Arc;
 // address literals: parsing is the inverse of the textual form (std guarantee); the textual forms of the three kinds are disjoint
